@@ -20,7 +20,9 @@ EXPLANATION = ("Theorems in coq/Props/C04.v: for every construct, input, worker 
                "(own contexts; the starter output is closed / cancelled while the others keep reading), a receiver ranging over BufferedChannel/Channel "
                "while its context is cancelled, and GenerateParallel x {abort, ContinueOnError, ContinueOnPanic, both} x generator behaviours {ends, "
                "returns ctx.Err(), fails for ever ignoring ctx, panics for ever ignoring ctx} with a 'generator still called after the stop' counter - "
-               "and polls goroutine stacks; the observed outcome "
+               "a lazy conversion stage downstream of every iterator construct failing with an ordinary error at item k+1 (consumer sees EOF and walks "
+               "away), MergeIterators/Chain/Buffer over goroutine-backed inputs advanced once under a live application context, thousands of rounds of "
+               "reading 0/1-item inputs to EOF at GOMAXPROCS 2/4/8 - and polls goroutine stacks; the observed outcome "
                "class must equal the one the executable model produces for the same scenario.")
 READY = True
 LEVEL_TEXT = ("Machine-checked Coq theorems over GoLite networks (any input, worker count, buffer size, cut point, schedule): "
@@ -35,7 +37,11 @@ LEVEL_TEXT = ("Machine-checked Coq theorems over GoLite networks (any input, wor
               "the instructions between two consultations; C04_unguarded_retry_loop_refuted - GenerateParallel's worker without its ctx.Err() test is "
               "rejected and spins for ever under ContinueOnError with a failing generator; C04_split_others_released / C04_range_receiver_released - "
               "the pump's deferred close is on its cancellation path, so Split consumers of non-starter outputs (live contexts) and a receiver ranging "
-              "over BufferedChannel/Channel are released when the pump's context ends; C04_close_skipped_on_error_path_refuted - the counter-models.")
+              "over BufferedChannel/Channel are released when the pump's context ends; C04_close_skipped_on_error_path_refuted - the counter-models; "
+              "C04_eof_without_close_refuted - a downstream failure that surfaces as io.EOF must cancel like Close (ReadOne's doClose on any error); "
+              "C04_consume_closes_input_on_every_exit - ChanSend.Consume over a goroutine-backed, already running input (executable nets, clean and "
+              "close-only-on-success); C04_first_advance_context_limit - an iterator keeps the context of its first advance: a reader parked inside "
+              "such an input is not released by the later caller's context (root cause of the known Split finding).")
 LEVEL_NOTE = ("Partial in DESIGN's sense: channel hand-off, WaitGroup, context tree (cancellation reaches derived contexts atomically) and goroutine "
               "exit are model primitives; goroutine exit on the real code is observed by the stack-polling oracle only (10 s bounds, never short "
               "sleeps). The tie is outcome-level per scenario (leak count / stuck / EOF vs. the executable model's outcome for the same scenario). "
